@@ -339,3 +339,79 @@ pub fn parse_to_e(src: &str) -> Result<Vec<E>, String> {
     let ast = parse(src)?;
     ast_program_to_e(&ast).ok_or_else(|| "parser did not return a Top node".to_string())
 }
+
+/// The repository's in-memory `Program` built directly from the independent decoder's result - through
+/// the public constructors only, never through the loader. `load(bytes) == construct(B.read(bytes))`
+/// is "the file is loaded as the program it denotes" without any detour through the writer, and
+/// `Display(load(bytes)) == Display(construct(..))` is a syntax-agnostic oracle for the listing.
+pub fn construct(p: &super::codec::Prog) -> Result<Program, String> {
+    use crate::bytecode::bytecode::OpCode;
+    use crate::bytecode::program::{AddressRange, Arity, Code, ConstantPool, ConstantPoolIndex, Entry, Globals, LocalFrameIndex, ProgramObject, Size};
+    use super::codec::{Const, Ins};
+    let p = p.clone();
+    match catch_unwind(AssertUnwindSafe(move || -> Result<Program, String> {
+        let cpi = ConstantPoolIndex::new;
+        let mut code: Vec<OpCode> = vec![];
+        let mut objects: Vec<ProgramObject> = vec![];
+        for c in &p.consts {
+            objects.push(match c {
+                Const::Int(i) => ProgramObject::Integer(*i),
+                Const::Null => ProgramObject::Null,
+                Const::Bool(b) => ProgramObject::Boolean(*b),
+                Const::Str(s) => ProgramObject::String(s.clone()),
+                Const::Slot(n) => ProgramObject::Slot { name: cpi(*n) },
+                Const::Class(ms) => ProgramObject::Class(ms.iter().map(|m| cpi(*m)).collect()),
+                Const::Method { name, arity, locals, code: body } => {
+                    let start = code.len();
+                    for ins in body {
+                        code.push(match *ins {
+                            Ins::Label(a) => OpCode::Label { name: cpi(a) }, Ins::Lit(a) => OpCode::Literal { index: cpi(a) },
+                            Ins::Print(a, n) => OpCode::Print { format: cpi(a), arguments: Arity::new(n) }, Ins::Array => OpCode::Array,
+                            Ins::Object(a) => OpCode::Object { class: cpi(a) }, Ins::GetSlot(a) => OpCode::GetField { name: cpi(a) },
+                            Ins::SetSlot(a) => OpCode::SetField { name: cpi(a) }, Ins::CallSlot(a, n) => OpCode::CallMethod { name: cpi(a), arguments: Arity::new(n) },
+                            Ins::Call(a, n) => OpCode::CallFunction { name: cpi(a), arguments: Arity::new(n) },
+                            Ins::SetLocal(a) => OpCode::SetLocal { index: LocalFrameIndex::new(a) }, Ins::GetLocal(a) => OpCode::GetLocal { index: LocalFrameIndex::new(a) },
+                            Ins::SetGlobal(a) => OpCode::SetGlobal { name: cpi(a) }, Ins::GetGlobal(a) => OpCode::GetGlobal { name: cpi(a) },
+                            Ins::Branch(a) => OpCode::Branch { label: cpi(a) }, Ins::Goto(a) => OpCode::Jump { label: cpi(a) },
+                            Ins::Return => OpCode::Return, Ins::Drop => OpCode::Drop,
+                        });
+                    }
+                    ProgramObject::Method { name: cpi(*name), parameters: Arity::new(*arity), locals: Size::new(*locals), code: AddressRange::from(start, body.len()) }
+                }
+            });
+        }
+        let globals = Globals::from(p.globals.iter().map(|g| cpi(*g)).collect::<Vec<_>>());
+        Program::from(Code::from(code), ConstantPool::from(objects), globals, Entry::from(cpi(p.entry))).map_err(|e| format!("{:#}", e))
+    })) {
+        Ok(r) => r,
+        Err(e) => Err(panic_text(e)),
+    }
+}
+
+/// `construct` lays method code out in pool order, as the loader does today. That is a convention of
+/// the in-memory representation, not of the file format: if a future loader arranges code differently
+/// (and is right to), comparing with `construct` would be a false alarm. The oracles that use it are
+/// therefore switched on only if the convention holds on three small canary programs (compiler
+/// output with functions, methods and labels, free of duplicate constants and long strings).
+pub fn construct_convention_holds() -> bool {
+    thread_local! { static HOLDS: std::cell::Cell<Option<bool>> = std::cell::Cell::new(None); }
+    HOLDS.with(|h| {
+        if let Some(v) = h.get() { return v }
+        let canaries = ["print(\"hi\\n\")",
+            "function f(a) -> if a < 1 then 0 else a + f(a - 1);\nlet o = object begin let x = 1; function m(k) -> this.x + k end;\nprint(\"~ ~\\n\", f(3), o.m(2))",
+            "let i = 0;\nwhile i < 2 do begin let a = array(2, i); i <- i + 1 end;\nfunction g() -> null;\ng()"];
+        let mut ok = true;
+        for src in canaries {
+            let good = (|| -> Option<bool> {
+                let b = compile_source(src).ok()?;
+                let d = super::codec::read(&b).ok()?;
+                let l = load(&b).ok()?;
+                let c = construct(&d).ok()?;
+                Some(l == c && format!("{}", l) == format!("{}", c))
+            })().unwrap_or(false);
+            ok &= good;
+        }
+        h.set(Some(ok));
+        ok
+    })
+}
